@@ -396,8 +396,10 @@ spif_str_append(spif_str_t self, spif_str_t other)
             self->size++;
         }
         self->s = (spif_charptr_t) REALLOC(self->s, self->size);
-        memcpy(self->s + self->len, STR_TEXT(other), other->len + 1);
+        /* other may be self: copy the text only, then terminate. */
+        memcpy(self->s + self->len, STR_TEXT(other), other->len);
         self->len += other->len;
+        self->s[self->len] = 0;
     }
     return TRUE;
 }
